@@ -204,6 +204,20 @@ def h_literal_types(eng):
 TOK = ["a", "2", "+", "*", "/", "**", "(", ")", "-"]
 
 
+def _collapse_plus_minus(tokens):
+    """'+ / -' (also written with blanks) is the binary plus-minus operator of the
+    uncertainty-aware tokenizer: for well-formedness it is one binary operator"""
+    out, i = [], 0
+    while i < len(tokens):
+        if tokens[i : i + 3] == ["+", "/", "-"]:
+            out.append("*")
+            i += 3
+        else:
+            out.append(tokens[i])
+            i += 1
+    return out
+
+
 def _well_formed(tokens):
     """reference grammar with implicit multiplication:
     expr := unary (binop? unary)*   ;  unary := ('+'|'-')* atom (('**') unary)? ;  atom := NAME | NUM | '(' expr ')'"""
@@ -260,12 +274,18 @@ def _well_formed(tokens):
 
 
 def h_ill_formed(eng, seqs):
+    import contextlib
+
+    from ..sx.stubs import ufloat_stub
+
     ureg = regs.default(eng)
     x = eng.real("x")
     for toks in seqs:
         src = " ".join(toks)
         try:
-            r = ureg.parse_expression(src, a=x)
+            # ('+/-' builds an uncertain number: the affine model stands in for ufloat)
+            with ufloat_stub() if eng.symbolic else contextlib.nullcontext():
+                r = ureg.parse_expression(src, a=x)
         except (DefinitionSyntaxError, ValueError, TypeError, AssertionError, SyntaxError, IndexError, ZeroDivisionError, UndefinedUnitError, AttributeError, DimensionalityError, tokenize.TokenError):
             eng.prove(True, "ill-formed-raises")
             continue
@@ -421,8 +441,9 @@ def cases(tier, seed):
             glued = src[: m.start()] + src[m.end() :]
             # under known finding K7 the glued group binds to the value before it first; when that
             # value is an exponent, pint's reading needs a real power of a symbolic base, which the
-            # rational encoding cannot express: such strings are outside the bounded claim
-            if re.search(r"\*\*\s*-?\s*[a-d]\(", glued):
+            # rational encoding cannot express (likewise a floor division by it, which the solver
+            # does not decide): such strings are outside the bounded claim
+            if re.search(r"(\*\*|//)\s*-?\s*[a-d]\(", glued):
                 continue
             juxp.append([glued, src])
         # a name directly after a closing parenthesis: "(a + b)c" -- the evaluator's implicit
@@ -447,7 +468,7 @@ def cases(tier, seed):
     seqs = []
     for n in range(1, (5 if big else 4) + 1):
         for t in itertools.product(TOK, repeat=n):
-            if not _well_formed(list(t)):
+            if not _well_formed(_collapse_plus_minus(list(t))):
                 seqs.append(list(t))
     if big and len(seqs) > 30000:
         seqs = seqs[:8000] + rnd.sample(seqs[8000:], 22000)
